@@ -11,7 +11,8 @@ EXPLANATION = ("(VC) the real message handler HsmsProtocol._on_connection_messag
                "incl. connect / peer close / local disable are executed on a real protocol object in both connect modes; a frame audit shows no other "
                "code writes the session state. (BND) every history up to length 6 over {connect, close, Select/Deselect/Separate.req, data} and random "
                "longer histories run against the E37 oracle - this is what notices state that survives a disconnect (caches, flags). "
-               "Thread interleavings (a Select.req in flight while the connection is accepted) are not covered.")
+               "The schedule clause (a Select.req or data message already in flight when the connection is accepted) is a forced-interleaving "
+               "FD obligation; other thread interleavings are not covered.")
 ASSUMPTIONS = [
     "oracle: DESIGN.md Appendix A.1 (transcription of SEMI E37 from the property statement and the code's transition comments, A-ORACLE)",
     "call-outs assumed at call sites: Protocol.send_message records the frame handed to the send path; Queue.put_nowait on the requester's queue; "
